@@ -291,16 +291,19 @@ ASSUMPTIONS = [
 
 
 def classify(whats):
+    """coarse class of a list of differences (used in known-finding signatures)"""
     ks = set()
     for w in whats:
-        if "exists outside the declared extent" in w:
-            ks.add("element-outside-extent")
-        elif "outside the declared extent has a value" in w:
-            ks.add("value-outside-extent")
+        if "outside the declared extent" in w:
+            ks.add("outside-extent")
         elif "coefficient" in w:
             ks.add("wrong-value")
+        elif "NameError" in w:
+            ks.add("model-error:NameError")
         else:
-            ks.add("model-error")
+            ks.add("model-error:other")
+    if "wrong-value" in ks:
+        ks.discard("outside-extent")      # in-extent values wrong dominates
     return "+".join(sorted(ks))
 
 
@@ -339,6 +342,12 @@ def work_equiv(spec, metrics=False, twin=True, targets=None, total=False):
         r["why"] = (r.get("why") or "") + " | concrete replay: " + "; ".join(diffs[:4])
         cls = classify(diffs) if diffs else r.get("kind")
         r["sig"] = dict(spec.get("tags") or {}, engine="E1", cls=cls)
+        if cls == "model-error:NameError":
+            import re as _re
+            m = _re.search(r"NameError: (\w+)", " ".join(diffs))
+            nm = m.group(1) if m else "?"
+            lo = sum(((spec.get("mapping") or {}).get("loop-order") or {}).values(), [])
+            r["sig"]["unbound"] = "loop-rank-level" if nm in lo and nm[-1:].isdigit() else nm
         r["replay"] = {"spec": spec, "metrics": metrics, "text": text, "presence": pres, "targets": targets,
                        "differences": diffs}
         return r
